@@ -905,14 +905,22 @@ func (w *World) connUpdate(o Op) (Obs, error) {
 	}
 	cands := w.Conn.MessagesWhere(mid, func(l []byte) bool { return bytes.Equal(l, row.Raw) })
 	if len(cands) != 1 {
-		stripped := reGluonID.ReplaceAll(row.Raw, nil)
+		// every leading X-Pm-Gluon-Id goes: a literal the connector handed in may carry one of its own, gluon puts its id
+		// in front of it
+		stripAll := func(b []byte) []byte {
+			for reGluonID.Match(b) {
+				b = reGluonID.ReplaceAll(b, nil)
+			}
+			return b
+		}
+		stripped := stripAll(row.Raw)
 		same := 0
 		for _, r := range mb.Rows {
 			if r.Lit == row.Lit {
 				same++
 			}
 		}
-		cands = w.Conn.MessagesWhere(mid, func(l []byte) bool { return bytes.Equal(reGluonID.ReplaceAll(l, nil), stripped) })
+		cands = w.Conn.MessagesWhere(mid, func(l []byte) bool { return bytes.Equal(stripAll(l), stripped) })
 		if len(cands) != 1 || same != 1 {
 			return skip("the remote message of the row cannot be told")
 		}
